@@ -723,7 +723,13 @@ func init() {
 		Rule: "every valid (p,s), p in 1..65, s in 0..min(30,p) x {zero, all nines, single low digit, each 9-digit group first non-zero, random} x sign; non-trivial: value != 0"})
 	register(&Property{ID: "C12", Gen: genC12, Chunks: chunksC12, Extra: extraC12, Replay: replayCell,
 		Rule: "DATE lattice (every 37th point quick / every 3rd thorough, all points of the boundary years), old TIME both signs to 838h, old DATETIME, TIME2/DATETIME2/TIMESTAMP2 fsp 0..6 boundary+random, all 2^24 raw values of the 3-byte DATE and old TIME encodings impl-vs-model in thorough, TIMESTAMP under several process time zones (offset and civil text obtained from the time package directly); non-trivial: not the all-zero value"})
-	register(&Property{ID: "C13", Gen: genC13, Replay: replayCell,
+	register(&Property{ID: "C13", Gen: genC13, Extra: extraC13,
+		Replay: func(line string) []Case {
+			if strings.HasPrefix(line, "hist ") {
+				return replayHist(line)
+			}
+			return replayCell(line)
+		},
 		Rule: "declared lengths VARCHAR {0,1,2,254..257,1000,65535,random}, CHAR 0..1023, blob length bytes 1..4 x actual lengths {0,1,255,256,max,random} x arbitrary bytes; NULL/empty/absent via the row-column cases; non-trivial: non-empty payload"})
 }
 
@@ -752,3 +758,87 @@ func extraC10(col *Collector, r *RNG, tier string) {
 	}
 	runCases(col, theDriver, cs)
 }
+
+// rowsOnlyHistory: transactions made of rows changes only, over the given tables (used by the end-to-end extras of
+// the cell-level properties: the value must survive Rows() -> getValuesFromRow / getIdentifiesFromRow -> ColumnData).
+func rowsOnlyHistory(r *RNG, cfg string, tables []*hTable, maxRows int) *hist {
+	h := &hist{cfg: cfg, ext: map[string][]string{}, tables: tables}
+	o := histOpts{maxRows: maxRows}
+	ts := uint32(1600000000)
+	for u, nu := 0, r.Range(1, 4); u < nu; u++ {
+		ts++
+		unit := hUnit{kind: "tx", ts: ts, begin: "BEGIN", closer: fmt.Sprintf("x%d", u)}
+		seen := map[int]bool{}
+		for k := r.Range(1, 3); k > 0; k-- {
+			ti := r.Intn(len(tables))
+			unit.changes = append(unit.changes, hChange{rows: genRows(r, h, o, ti, ts, !seen[ti] || r.Bool())})
+			seen[ti] = true
+		}
+		h.units = append(h.units, unit)
+	}
+	return h
+}
+
+func histExtra(class, key string, quick, thorough int, mk func(r *RNG, cfg string) *hist) func(col *Collector, r *RNG, tier string) {
+	return func(col *Collector, r *RNG, tier string) {
+		n := quick
+		if tier == "thorough" {
+			n = thorough
+		}
+		var cs []Case
+		for i := 0; i < n; i++ {
+			h := mk(r, allCfgs[i%len(allCfgs)])
+			c := histCase(h, firstFile, 4, class, true, "")
+			inner := c.Run
+			c.Run = func(resp map[string]string) Outcome {
+				o := inner(resp)
+				if !o.OracleOK {
+					o.FindingKey = key
+				}
+				return o
+			}
+			cs = append(cs, c)
+		}
+		runCases(col, theDriver, cs)
+	}
+}
+
+// extraC09: the offset bookkeeping over an image in getValuesFromRow / getIdentifiesFromRow: wide tables of mixed
+// types (every cell length class next to every other), partial images, NULLs, several rows per event.
+var extraC09 = histExtra("image-walk-end-to-end", "image-walk-end-to-end", 150, 3000, func(r *RNG, cfg string) *hist {
+	o := histOpts{maxCols: 17, maxTables: 2, allowTZ: false}
+	return rowsOnlyHistory(r, cfg, genTables(r, o), 4)
+})
+
+// extraC13: "NULL and absent marking" and the exact bytes of string / blob values end to end: string-heavy tables
+// (VARCHAR 1- and 2-byte prefixes, CHAR incl. the 255/256 boundary, the four blob widths, BINARY), NULLs, partial images.
+var extraC13 = histExtra("strings-end-to-end", "strings-end-to-end", 150, 3000, func(r *RNG, cfg string) *hist {
+	var ts []*hTable
+	for i, n := 0, r.Range(1, 2); i < n; i++ {
+		t := &hTable{id: uint64(300 + i), db: "s" + randName(r, 2), name: fmt.Sprintf("t%d", i)}
+		for c, nc := 0, r.Range(1, 9); c < nc; c++ {
+			var k hCol
+			switch r.Intn(7) {
+			case 0:
+				k = hCol{typ: 15, md: r.Pick(1, 20, 255, 256, 300, 65535)}
+			case 1:
+				k = hCol{typ: 253, md: r.Pick(1, 255, 256, 1000)}
+			case 2: // CHAR(n): real type 254 in the high byte, length bits folded in as MySQL does
+				l := r.Pick(1, 10, 255, 256, 300, 1020)
+				k = hCol{typ: 254, md: ((254 ^ ((l & 0x300) >> 4)) << 8) | (l & 0xff)}
+			case 3:
+				k = hCol{typ: 252, md: r.Range(1, 4)}
+			case 4:
+				k = hCol{typ: 255, md: r.Range(1, 4)}
+			case 5:
+				k = hCol{typ: 3}
+			default:
+				k = hCol{typ: 252, md: 2}
+			}
+			k.nullable, k.name = true, fmt.Sprintf("c%d", c)
+			t.cols = append(t.cols, k)
+		}
+		ts = append(ts, t)
+	}
+	return rowsOnlyHistory(r, cfg, ts, 3)
+})
